@@ -70,6 +70,10 @@ func (f *Recover) Call(s *slip.Scope, args slip.List, depth int) (result slip.Ob
 	}()
 	for i := 2; i < len(args); i++ {
 		result = slip.EvalArg(s, args, i, d2)
+		switch result.(type) {
+		case *slip.ReturnResult, *slip.GoTo:
+			return
+		}
 	}
 	return
 }
